@@ -208,6 +208,14 @@ def run_case(qualname, recipes, caller=None):
                 rep["violations"].append(f"raises[{type(e).__name__}]/when")
         return rep
     result = outcome[1]
+    import types as _types
+    if isinstance(result, _types.GeneratorType):
+        try:
+            result = list(result)
+        except BaseException as e:
+            rep["outcome"] = f"raise {type(e).__name__} while iterating the generator: {str(e)[:200]}"
+            rep["violations"].append(f"no-raise[{type(e).__name__}]")
+            return rep
     rep["outcome"] = f"return {repr(result)[:300]}"
     for en, when in c.raises:
         if when is not None and ev(when, ns):
